@@ -18,6 +18,9 @@ import (
 	"strings"
 	"time"
 
+	"github.com/opencontainers/go-digest"
+	ocispec "github.com/opencontainers/image-spec/specs-go/v1"
+	"oras.land/oras-go/v2/registry/remote"
 	"oras.land/oras-go/v2/registry/remote/auth"
 	"oras.land/oras-go/v2/registry/remote/retry"
 )
@@ -283,6 +286,40 @@ func runC17(seed int64, tier string, sc *Script) map[string]any {
 					sc.Op(within, "rt exppause base=%d factor=%v jitter=%v attempt=%d", int64(base), factor, jitter, attempt)
 					evals += 2
 				}
+			}
+		}
+	}
+	// a manifest pushed through a Repository from a reader that can be read once (the body of
+	// another registry's response, say), with the client stack in between: the Repository keeps
+	// the bytes so that every re-send - after a challenge, after a retryable answer - carries them
+	sc.Case("manifest-push-resend")
+	sc.NonTrivial()
+	for _, mt := range []string{"application/vnd.docker.distribution.manifest.v2+json", "application/vnd.oci.image.manifest.v1+json"} {
+		for _, script := range [][]string{{"401b", "201"}, {"503", "201"}, {"429:ra1", "503", "201"}, {"201"}} {
+			for _, byTag := range []bool{false, true} {
+				payload := []byte(fmt.Sprintf(`{"schemaVersion":2,"mediaType":%q,"config":{"mediaType":"application/vnd.oci.empty.v1+json","digest":"sha256:44136fa355b3678a1146ad16f7e8649e94fb4fc21fe77e8310c060f61caaff8a","size":2},"layers":[],"annotations":{"s":%q}}`, mt, strings.Join(script, "-")))
+				base := &scriptedRT{script: append([]string(nil), script...), payload: payload}
+				pol := &retry.GenericPolicy{Retryable: retry.DefaultPredicate, Backoff: func(int, *http.Response) time.Duration { return 0 }, MinWait: 0, MaxWait: time.Millisecond, MaxRetry: 5}
+				ac := &auth.Client{Client: &http.Client{Transport: &retry.Transport{Base: base, Policy: func() retry.Policy { return pol }}},
+					Credential: auth.StaticCredential("registry.invalid", auth.Credential{Username: "u", Password: "p"})}
+				repo, err := remote.NewRepository("registry.invalid/a/b")
+				if err != nil {
+					panic(err)
+				}
+				repo.Client = ac
+				repo.SetReferrersCapability(true) // (known: no client-side referrers index, the manifest goes out as it comes in)
+				d := ocispec.Descriptor{MediaType: mt, Digest: digest.FromBytes(payload), Size: int64(len(payload))}
+				if byTag {
+					err = repo.PushReference(context.Background(), d, &oneShot{bytes.NewReader(payload)}, "v1")
+				} else {
+					err = repo.Push(context.Background(), d, &oneShot{bytes.NewReader(payload)})
+				}
+				out := "ok"
+				if err != nil {
+					out = "err"
+				}
+				sc.Op(fmt.Sprintf("recv=%s out=%s", strings.Join(base.recv, ","), out), "rt pushresend attempts=%d", len(script))
+				evals++
 			}
 		}
 	}
